@@ -64,6 +64,14 @@ func stripResults(b *gen.Block) {
 func graphOf(d descriptor) *gen.Graph {
 	lw := gen.Lower(d.Prog)
 	g := lw.G
+	// every task declares the data output the concurrent answers carry
+	// (DoWithObjects): parallel branches then store into one data-object
+	// container at the same moment
+	g.AllNodes(func(n *gen.Node, _ *gen.Graph) {
+		if n.Kind == gen.KTask {
+			n.DataOutputs = []string{"o1"}
+		}
+	})
 	if d.StaleJoin > 0 {
 		k := 0
 		g.AllNodes(func(n *gen.Node, sg *gen.Graph) {
